@@ -253,7 +253,16 @@ template <> struct numeric_limits<sym::Float> {       // the float32 constants o
     static sym::Float epsilon() { return sym::Float((double)FLT_EPSILON); }
     static sym::Float infinity() { return sym::Float(INFINITY); }
 };
-inline sym::Float log(const sym::Float &a) { if (a.kind != sym::Float::CONC) throw sym::Abort{3}; return sym::Float(std::log(a.v)); }
+inline sym::Float log(const sym::Float &a) {
+    if (a.kind == sym::Float::CONC) return sym::Float(std::log(a.v));
+    if (a.kind != sym::Float::EXP) throw sym::Abort{3};
+    // log(c*e^x) = x + ln c, unless the float32 product underflowed to 0 (then logf gives -inf)
+    sym::Lin t = a.l; t.k += std::log(a.v) - (-103.972);
+    bool zero = t.is_const() ? t.k < 0 : sym::E.decide(sym::lt0(t), "underflow(" + a.text() + ")");
+    if (zero) return sym::Float(-INFINITY);
+    sym::Lin r = a.l; r.k += std::log(a.v);
+    return sym::Float(r);
+}
 inline sym::Float exp(const sym::Float &a) {
     if (a.kind == sym::Float::CONC) return sym::Float(std::exp(a.v));
     if (a.kind == sym::Float::EXP) throw sym::Abort{3};
